@@ -130,4 +130,7 @@ var items = []modItem{
 	{"Registry", Item{Dir: "registry", Kind: "cond", Recv: "Registry", Func: "ReadTagsFrom", Err: "registry: negative tag count", Name: "Registry_ReadTagsFrom_negCount"}},
 	{"Registry", Item{Dir: "registry", Kind: "cond", Recv: "Registry", Func: "ReadTagsFrom", Err: "registry: negative tag length", Name: "Registry_ReadTagsFrom_negLen"}},
 	{"Registry", Item{Dir: "registry", Kind: "cond", Recv: "Registry", Func: "ReadTagsFrom", Err: "invalid id", Name: "Registry_ReadTagsFrom_badId"}},
+	{"RCON", Item{Dir: "net", Kind: "cond", Func: "DialRCON", Err: "err = nil", Name: "RCON_Dial_accept"}},
+	{"RCON", Item{Dir: "net", Kind: "cond", Func: "DialRCON", Err: `errors.New("login fail")`, Name: "RCON_Dial_refused"}},
+	{"RCON", Item{Dir: "net", Kind: "occurs", Func: "DialRCON", Err: `errors.New("req id not match")`, Name: "RCON_Dial_mismatchBranch"}},
 }
